@@ -481,7 +481,18 @@ namespace Pistache::Http
             }
 
             if (size == 0)
+            {
+                // last-chunk: the message ends with the CRLF that closes the
+                // (empty) trailer section
+                if (!cursor.eol())
+                {
+                    if (cursor.remaining() < 2)
+                        return Incomplete;
+                    throw std::runtime_error("Chunk trailers are not supported");
+                }
+                cursor.advance(2);
                 return Final;
+            }
 
             StreamCursor::Token chunkData(cursor);
             const ssize_t available = cursor.remaining();
